@@ -607,6 +607,7 @@ static int libc_died;
 static const unsigned char prior_mb[4] = {0xE2, 0x82, 0xFF, 0}; /* invalid in both locales */ /* in C.utf8 glibc leaves the two pending bytes in *ps */
 static const uint32_t prior_ws[2] = {0xD800, 0};
 static io_t P;
+static int mid_entry(const io_t *io, res_t *r);
 static void prior_failed_call(int fn, mbstate_t *ps, int *err, int midchar) {
     memset(&P, 0, sizeof P);
     P.fn = fn; P.dmax = 8;
@@ -640,6 +641,7 @@ static int scenario(io_t *io, res_t *r, int prior_fail, int noslack) {
     do_call(io);
     GUARDED_REF(judge(io, r, "", noslack));
     if (libc_died) return 1;
+    if (!r->violation && mid_entry(io, r)) return 1;
     if (r->violation || !prior_fail) return r->violation;
     {
         mbstate_t ps;
@@ -676,6 +678,36 @@ static int set_loc(int l) {
     if (!setlocale(LC_ALL, l ? "C.utf8" : "C")) { cur_loc = -1; return 0; }
     cur_loc = l;
     return 1;
+}
+
+/* A restartable conversion may legitimately be ENTERED in the middle of a character: an earlier mbrtowc() on a chunk that
+ * ended after E2 82 returned (size_t)-2 and left the two bytes in *ps; the next chunk starts with the continuation byte AC.
+ * Reference: glibc's mbsrtowcs with a copy of the same state. Judged where nothing is open: the whole string converts and
+ * fits (count < dmax, count < len): EOK, the same count, the same characters, terminated. */
+static int mid_entry(const io_t *io, res_t *r) {
+    static io_t M;
+    static unsigned char tmp[BIGLEN + 140];
+    mbstate_t st, st2;
+    const char *sp;
+    size_t R;
+    if (io->fn != FN_MBSRTOWCS || io->destnull || cur_loc != 1 || io->mbn + 2 > sizeof tmp) return 0;
+    if (io->bos_known && io->len > io->dmax) return 0; /* len above the known object size: rejected before converting, and rightly so */
+    memset(&st, 0, sizeof st);
+    if (mbrtowc(NULL, "\xE2\x82", 2, &st) != (size_t)-2) return 0;
+    tmp[0] = 0xAC; memcpy(tmp + 1, io->mb, io->mbn); tmp[io->mbn + 1] = 0;
+    st2 = st; sp = (const char *)tmp;
+    R = mbsrtowcs(refw, &sp, BIGLEN, &st2);
+    if (R == (size_t)-1 || sp != NULL || !(R < io->dmax && R < io->len) || io->dmax > DMAX_CAP) return 0;
+    M = *io; M.mb = tmp; M.mbn = io->mbn + 1; M.ps_in = st; M.keep_errno = 0;
+    do_call(&M);
+    res_label(r, "entered-mid-character");
+    if (M.faulted) return 0; /* the memory verdicts belong to the plain scenario */
+    if (M.ret != EOK || M.retval != R || memcmp(M.dest, refw, (R + 1) * sizeof(wchar_t)) != 0) {
+        VIOL(r, op_name[io->fn], "wrong-result-when-entered-mid-character", "");
+        RES_DETAIL(r, "*ps holds E2 82 (mbrtowc returned -2), src starts with AC: libc converts %zu characters starting with U+20AC; the call returned %d, count %zu, dest[0]=0x%x", R, (int)M.ret, M.retval, (unsigned)((const uint32_t *)(const void *)M.dest)[0]);
+        return 1;
+    }
+    return 0;
 }
 
 static io_t IO, IO2;
